@@ -122,9 +122,10 @@ Definition rib_view_ctx (c : pctx) (k : rkey) (a : option fattrs) : input :=
   MkIn K_RM (k_pfx k) a 0 0 None 0 (ctx_ingress c k) false.
 Definition rib_view (k : rkey) (a : option fattrs) : input := rib_view_ctx CtxFresh k a.
 
-(* bgp-in: the UPDATE - whatever it carries - and the session's provenance *)
-Definition bgp_view (pv : prov) (u : upd) (a : fattrs) : input :=
-  MkIn K_RM 0 (match n_ann u with 0%N => None | _ => Some a end) (n_ann u) (n_wd u) None (pv_asn pv) (pv_ingress pv) false.
+(* bgp-in: the UPDATE - whatever it carries - and the session's provenance; [legacy]: the peer did not send the
+   4-octet AS number capability, its AS_PATHs are written with 2-octet AS numbers *)
+Definition bgp_view (pv : prov) (u : upd) (a : fattrs) (legacy : bool) : input :=
+  MkIn K_RM 0 (match n_ann u with 0%N => None | _ => Some a end) (n_ann u) (n_wd u) None (pv_asn pv) (pv_ingress pv) legacy.
 
 (* bmp-in: the message and [bmp_prov]; the ingress id on output messages is the router connection's *)
 Definition bmp_view (c : prov) (b : bmsg) (a : fattrs) (legacy : bool) : input :=
